@@ -203,3 +203,8 @@ class CirculationPump(BranchWOInternalsComponent):
 
         mass = branch_pit[f:t, MDOTINIT]
         res_table['qext_w'].values[:] = mass * (cp_i1 * tout - cp_i * t_from)
+
+        # pumps that are out of service or not supplied do not have results
+        inactive = ~get_lookup(net, "branch", "active_hydraulics")[f:t]
+        res_table['deltat_k'].values[inactive] = np.nan
+        res_table['qext_w'].values[inactive] = np.nan
